@@ -78,6 +78,12 @@ def _eval(res, name, m, fn, x, v, clk, cache):
                 res.viol(ID, 'date-disagrees-with-digits', name, fn, case,
                          'date %s but digits encode (yy, mm, dd) = %r' % (r.isoformat(), exp), 'agreement',
                          devclass=ln, rank=rank)
+        rule = T.CENTURY_RULES.get(name)
+        if rule is not None and x == v:
+            why = rule(v, r, clk or datetime.date.today())
+            if why:
+                res.viol(ID, 'date-disagrees-with-century-marker', name, fn, case, 'date %s: %s' % (r.isoformat(), why),
+                         'documented century rule', devclass=ln, rank=rank)
         for other, attr in (('get_birth_year', 'year'), ('get_birth_month', 'month')):
             g = getattr(m, other, None)
             if g is not None:
@@ -85,6 +91,10 @@ def _eval(res, name, m, fn, x, v, clk, cache):
                 if o2[0] == 'ok' and o2[1] is not None and o2[1] != getattr(r, attr):
                     res.viol(ID, 'date-disagrees-with-' + attr, name, fn, case,
                              'date %s but %s() = %r' % (r.isoformat(), other, o2[1]), 'agreement', devclass=ln, rank=rank)
+    exp = T.TYPE_BY_LENGTH.get((name, fn))
+    if exp is not None and x == v and len(v) in exp and r != exp[len(v)]:
+        res.viol(ID, 'type-disagrees-with-length', name, fn, case, '%s(%r) = %r' % (fn, v, r), exp[len(v)],
+                 devclass=ln, rank=rank)
     if fn == 'split':
         joined = ''.join(r)
         targets = {v}
@@ -118,7 +128,13 @@ def work(item):
     extra = synth.date_numbers(name, m, sv0)
     reg = [x for x in synth.registry_inputs(name, m, sv0, limit=300 if quick else 4000,
                                             funcs=tuple(['validate'] + gs)) if e2._accepts(m, x, {})]
-    values = sorted(set(values) | set(extra) | set(reg[:1500 if quick else 100000]))
+    shorter = set()
+    for v in values[:300 if quick else 5000]:
+        for t in (v[:-1], v[:-2], v + '0', v + '00'):
+            if t not in shorter and e2._accepts(m, t, {}):
+                shorter.add(t)
+    res['extra']['length_variants'] = {name: len(shorter)} if shorter else {}
+    values = sorted(set(values) | set(extra) | set(reg[:1500 if quick else 100000]) | shorter)
     res['extra']['synth_date_numbers'] = {name: len(extra)} if extra else {}
     res['extra']['synth_registry_numbers'] = {name: len(reg)} if reg else {}
     pres = [(s, v) for s, v in seedmod.seeds(name, 20 if quick else None) if s != v]
